@@ -997,7 +997,7 @@ class FnEmitter:
             lines.append(p + f"    {self.T.c(pt)} __a{i} = {s};"); names.append(f'__a{i}')
         self.call_counts['std::' + nm] += 1
         lines += self.ghost(f'before-call {key}', p + '    ')
-        lines.append(p + f"    {self.gen.std.free_name(nm)}({', '.join(names)});")
+        lines.append(p + f"    verif_memcpy({', '.join(names)});")
         lines += self.ghost(f'after-call {key}', p + '    ')
         lines.append(p + '}')
         return lines
@@ -1168,8 +1168,16 @@ class StdRules:
     def free_call(self, em, name, tq, args, n):
         T = self.T
         if name == 'memcpy':
-            em.note_call('memcpy'); em.call_counts['std::memcpy'] += 1
-            return f"memcpy({em.e(args[0])}, {em.e(args[1])}, {em.e(args[2])})"
+            # constant length (sizeof / literal): CBMC's built-in memcpy; otherwise the contract model verif_memcpy
+            z = args[2]
+            while z.get('kind') in ('ImplicitCastExpr', 'ParenExpr', 'ConstantExpr'): z = z['inner'][0]
+            const_len = z.get('kind') in ('UnaryExprOrTypeTraitExpr', 'IntegerLiteral')
+            if not const_len and z.get('kind') == 'DeclRefExpr':
+                d = em.tu.byid.get(z['referencedDecl']['id'])
+                if d is None and z['referencedDecl'].get('kind') == 'VarDecl': const_len = True     # namespace-scope constant
+            fn = 'memcpy' if const_len else 'verif_memcpy'
+            em.note_call(fn)
+            return f"{fn}({em.e(args[0])}, {em.e(args[1])}, {em.e(args[2])})"
         if name == '__builtin_memcpy':
             em.note_call('memcpy')
             return f"memcpy({em.e(args[0])}, {em.e(args[1])}, {em.e(args[2])})"
@@ -1798,6 +1806,7 @@ def run(ast_dir, spec_paths, excluded_path, out_c, out_map, out_report, layouts_
     L += types
     for q in ctx.records: L.append(f"#define HAVE_{cname(q)} 1")
     L.append(MODELS_INCLUDE)
+    L.append(MODELS_INCLUDE.replace('models.h', 'vocab.h'))
     for nm, elem in ctx.vec_structs.items(): L.append(f"DEFINE_VEC_MODEL({nm}, {elem})")
     L.append('/* ---- prototypes ---- */')
     for cn, p in protos.items():
